@@ -11,6 +11,8 @@ import (
 	"fmt"
 	"io"
 	"math/big"
+	"os"
+	"path/filepath"
 	"sort"
 	"strings"
 	"testing"
@@ -988,6 +990,16 @@ func FuzzTypedData(f *testing.F) {
 	for _, s := range fuzzSeeds {
 		f.Add([]byte(s))
 	}
+	// the committed regression documents are seeds too
+	files, _ := filepath.Glob(filepath.Join(evid.VerifDir(), "corpus", "C14", "*.json"))
+	sort.Strings(files)
+	for _, p := range files {
+		var rf evid.ReplayFile
+		var c DocCase
+		if b, err := os.ReadFile(p); err == nil && json.Unmarshal(b, &rf) == nil && rf.Kind == "doc" && json.Unmarshal(rf.Case, &c) == nil {
+			f.Add(c.text())
+		}
+	}
 	rec := evid.Start("C14", rule)
 	k := evid.NewKind(rec, "doc", judgeDoc)
 	f.Fuzz(func(t *testing.T, in []byte) {
@@ -1004,6 +1016,19 @@ func FuzzTypedData(f *testing.F) {
 // FuzzMutants drives the structured mutant generator from the fuzzer's bytes
 // (coverage-guided, structure-aware).
 func FuzzMutants(f *testing.F) {
+	// rapid consumes 8 input bytes per draw and gives up on a short input, so the
+	// seeds are long deterministic byte streams (xorshift); the fuzzer mutates them
+	for seed := uint64(1); seed <= 6; seed++ {
+		buf := make([]byte, 24<<10)
+		x := seed * 0x9E3779B97F4A7C15
+		for i := range buf {
+			x ^= x << 13
+			x ^= x >> 7
+			x ^= x << 17
+			buf[i] = byte(x >> 32)
+		}
+		f.Add(buf)
+	}
 	rec := evid.Start("C14", rule)
 	k := evid.NewKind(rec, "doc", judgeDoc)
 	f.Fuzz(rapid.MakeFuzz(func(rt *rapid.T) {
